@@ -243,6 +243,15 @@ inductive Outcome where
   | built (log : List Str) (loaded : List Str)
   deriving DecidableEq, Repr
 
+/-- A rule whose execution fails: the BUILD line is logged, `buildNode` returns the error and every
+    caller up to `Build` returns it, so the log of the build is the log of the same build without
+    failures cut after the first failing rule (`none`: no rule of `bad` was executed). -/
+def truncateAtFailure (bad : List Str) : List Str → Option (List Str)
+  | [] => none
+  | x :: rest =>
+    if x ∈ bad then some [x]
+    else (truncateAtFailure bad rest).map (x :: ·)
+
 /-- `Builder.Build`: with the builder started in `<root>/src/<w>` the requested
     targets are resolved with `makePath w` (absolute: from the workspace root,
     relative: from the work dir); from the workspace root they are node names -/
